@@ -4,10 +4,10 @@
 // (the sources are compiled with `-include sync/shim.h`).
 //
 //   reset
-//   scen <prim> <init> <sec> <nsec> <quantum_ns> <spur> <eintr> T:<ret>:<op>,<op>,... T:<ret>:...   -> ok <threads>
+//   scen <prim> <init> <sec> <nsec> <quantum_ns> <spur> <eintr> [F:<n>] T:<ret>:<op>,<op>,... T:<ret>:...   -> ok <threads>
 //        prim = mtx | sem | sig | mon | thr ; init = initial count (sem) / initially set (sig)
 //        ops  = lock try-<skip> unlock | signal wait twait-<ms> trywait | set reset wait twait-<ms> |
-//               lock try-<skip> unlock wait twait-<ms> set | start-<j> mstart-<j> (member-function overload) join-<j> | destroy (sig: delete the Signal)
+//               lock try-<skip> unlock wait twait-<ms> set | start-<j> mstart-<j> (member-function overload) join-<j> dtor-<j> (~Thread) | destroy (sig: delete the Signal)
 //        try-<skip>: on failure the next <skip> ops of the thread are skipped
 //   run <t.a>,<t.a>,...    (or `run -`)  explicit schedule prefix, default policy afterwards
 //        -> init:<events> <t.a>/<candidates>:<events> ... | <verdict>
@@ -34,13 +34,13 @@ int Debug::printf(const char* format, ...)
 }
 
 enum Prim { P_NONE, P_MTX, P_SEM, P_SIG, P_MON, P_THR };
-enum OpK { K_LOCK, K_TRY, K_UNLOCK, K_SIGNAL, K_WAIT, K_TWAIT, K_TRYWAIT, K_SET, K_RESET, K_START, K_MSTART, K_JOIN, K_DESTROY };
+enum OpK { K_LOCK, K_TRY, K_UNLOCK, K_SIGNAL, K_WAIT, K_TWAIT, K_TRYWAIT, K_SET, K_RESET, K_START, K_MSTART, K_JOIN, K_DTOR, K_DESTROY };
 struct Op { OpK k; long arg; };
 struct Prog { Op ops[64]; int n; unsigned long ret; };
 
 static Prim prim = P_NONE;
 static long initVal, clkSec, clkNsec, quantum;
-static int spur, eintr, nprog;
+static int spur, eintr, createFail, nprog;
 static Prog prog[SCHED_MAXT];
 
 static Mutex* mtx; static Semaphore* sem; static Signal* sig; static Monitor* mon;
@@ -110,6 +110,10 @@ static void runProg(int t)
       bool r = thr[o.arg]->start(body, (void*)o.arg);
       sched_event("%d=%d", k, r ? 1 : 0); break;
     }
+    case K_DTOR:     // Thread::~Thread() joins a thread that is still attached; the object is re-created in place
+      thr[o.arg]->~Thread();
+      new(thr[o.arg]) Thread;
+      sched_event("%d=v", k); break;
     case K_DESTROY: delete sig; sig = 0; sched_event("%d=v", k); break;   // ~Signal: the caller asserts that nobody uses it any more
     case K_MSTART:   // template <class X> bool Thread::start(X& obj, uint (X::*ptr)())
     {
@@ -155,6 +159,7 @@ static bool parseOp(char* s, Op& o)
   else if(!strcmp(s, "destroy") && !dash && si) o.k = K_DESTROY;
   else if(!strcmp(s, "start") && dash && arg > 0 && arg < SCHED_MAXT) o.k = K_START;
   else if(!strcmp(s, "mstart") && dash && arg > 0 && arg < SCHED_MAXT) o.k = K_MSTART;
+  else if(!strcmp(s, "dtor") && dash && arg > 0 && arg < SCHED_MAXT) o.k = K_DTOR;
   else if(!strcmp(s, "join") && dash && arg > 0 && arg < SCHED_MAXT) o.k = K_JOIN;
   else return false;
   return true;
@@ -170,7 +175,16 @@ static bool parseScen(HxLine& l)
   prim = pr;
   initVal = hxInt(l, 2); clkSec = hxInt(l, 3); clkNsec = hxInt(l, 4); quantum = hxInt(l, 5); spur = (int)hxInt(l, 6); eintr = (int)hxInt(l, 7);
   if(clkNsec < 0 || clkNsec >= 1000000000L || quantum <= 0 || initVal < 0) { prim = P_NONE; return false; }
-  for(int i = 8; i < l.ntok; ++i)
+  createFail = 0;
+  int first = 8;
+  if(strncmp(l.tok[8], "F:", 2) == 0)
+  {
+    char* e; long n = strtol(l.tok[8] + 2, &e, 10);
+    if(*e || e == l.tok[8] + 2 || n < 0) { prim = P_NONE; return false; }
+    createFail = (int)n; first = 9;
+  }
+  if(first >= l.ntok) { prim = P_NONE; return false; }
+  for(int i = first; i < l.ntok; ++i)
   {
     if(nprog == SCHED_MAXT || strncmp(l.tok[i], "T:", 2) != 0) { prim = P_NONE; return false; }
     Prog& P = prog[nprog]; P.n = 0;
@@ -192,7 +206,7 @@ static bool parseScen(HxLine& l)
   // a start/join may only name an existing program
   for(int t = 0; t < nprog; ++t)
     for(int k = 0; k < prog[t].n; ++k)
-      if((prog[t].ops[k].k == K_START || prog[t].ops[k].k == K_MSTART || prog[t].ops[k].k == K_JOIN) && prog[t].ops[k].arg >= nprog) { prim = P_NONE; return false; }
+      if((prog[t].ops[k].k == K_START || prog[t].ops[k].k == K_MSTART || prog[t].ops[k].k == K_JOIN || prog[t].ops[k].k == K_DTOR) && prog[t].ops[k].arg >= nprog) { prim = P_NONE; return false; }
   return true;
 }
 
@@ -200,6 +214,7 @@ static void child(int np, const int* pt, const int* pa, unsigned long long seed)
 {
   alarm(20);
   sched_begin(np, pt, pa, clkSec, clkNsec, quantum, spur, eintr, seed);
+  sched_set_create_failures(createFail);
   occOwner = -1; occDepth = 0;
   if(prim == P_MTX) mtx = new Mutex;
   if(prim == P_SEM) sem = new Semaphore((uint)initVal);
